@@ -1105,7 +1105,7 @@ func (c *oblCtx) obligSlice(n *ast.SliceExpr) {
 		// a local every definition of which is len(x), a position inside x (the key of a range over x) or zero:
 		// it never exceeds len(x), which is all a slice bound needs
 		if id := identOf(e); id != nil && c.fn != nil && !c.reassigned(x) {
-			if obj, isVar := objOf(c.info(), id).(*types.Var); isVar && !obj.IsField() {
+			if obj, isVar := objOf(c.info(), id).(*types.Var); isVar && !obj.IsField() && !c.stepped(obj) {
 				defs := c.defsOf(obj)
 				all := len(defs) > 0
 				for _, d := range defs {
@@ -1500,6 +1500,40 @@ func isCallFun(f *ast.File, id *ast.Ident) bool {
 			}
 		}
 		return !found
+	})
+	return found
+}
+
+
+// stepped: the local is modified other than by plain assignment somewhere in the function (`x++`, `x += k`, its address
+// taken): its definitions do not bound it.
+func (c *oblCtx) stepped(obj types.Object) bool {
+	if c.fn == nil {
+		return true
+	}
+	found := false
+	ast.Inspect(c.fn, func(n ast.Node) bool {
+		switch v := n.(type) {
+		case *ast.IncDecStmt:
+			if id := identOf(v.X); id != nil && objOf(c.info(), id) == obj {
+				found = true
+			}
+		case *ast.AssignStmt:
+			if v.Tok != token.ASSIGN && v.Tok != token.DEFINE {
+				for _, l := range v.Lhs {
+					if id := identOf(l); id != nil && objOf(c.info(), id) == obj {
+						found = true
+					}
+				}
+			}
+		case *ast.UnaryExpr:
+			if v.Op == token.AND {
+				if id := identOf(v.X); id != nil && objOf(c.info(), id) == obj {
+					found = true
+				}
+			}
+		}
+		return true
 	})
 	return found
 }
